@@ -1186,6 +1186,14 @@ func (d *indexData) newMatchTree(q query.Q, opt matchTreeOpt) (matchTree, error)
 			}
 		})
 		if regexpMT == nil {
+			// The regexp was translated completely into substring matchTrees
+			// (sym:foo|bar becomes an orMatchTree of substrings). They remain the
+			// document pre-filter; the regexp still has to run on the symbols.
+			if re, ok := s.Expr.(*query.Regexp); ok {
+				regexpMT = newRegexpMatchTree(re)
+			}
+		}
+		if regexpMT == nil {
 			return nil, fmt.Errorf("found %T inside query.Symbol", subMT)
 		}
 
